@@ -441,8 +441,8 @@ def _execute(env, cfg, factory, kind, body, crash, cdir, ctx_early):
     s0 = env.snapshot()
     fails = []
     state = {"armed": False, "count": 0}
-    want_k = crash[1] if crash and crash[0] == "async" else None
-    how = crash[2] if crash and crash[0] == "async" else None
+    want_k = crash[1] if crash and crash[0] in ("async", "async_caught") else None
+    how = crash[2] if crash and crash[0] in ("async", "async_caught") else None
 
     def prof(frame, event, arg):
         if not state["armed"]:
@@ -465,7 +465,7 @@ def _execute(env, cfg, factory, kind, body, crash, cdir, ctx_early):
     outcome = "normal"
     between_request_flags = []
     expected_nb = os.O_NONBLOCK if cfg["nonblock"] else 0
-    use_prof = crash is not None and crash[0] in ("async", "count")
+    use_prof = crash is not None and crash[0] in ("async", "count", "async_caught")
     if crash and crash[0] == "read":
         ci.os = FaultyOS(crash[1])
     if crash and crash[0] == "read_eagain":
@@ -484,7 +484,14 @@ def _execute(env, cfg, factory, kind, body, crash, cdir, ctx_early):
                 for i, (name, op) in enumerate(body):
                     if crash == ("prefix", i):
                         raise Boom()
-                    op(env, obj)
+                    if crash and crash[0] == "async_caught":
+                        # the program handles the interrupt itself inside the context and carries on to a normal exit
+                        try:
+                            op(env, obj)
+                        except KeyboardInterrupt:
+                            outcome = "interrupt_caught_inside"
+                    else:
+                        op(env, obj)
                     if name in ("set_nonblocking", "set_blocking"):
                         expected_nb = os.O_NONBLOCK if name == "set_nonblocking" else 0
                     if kind.startswith("input"):
@@ -546,6 +553,8 @@ def _execute(env, cfg, factory, kind, body, crash, cdir, ctx_early):
     if kind == "fullscreen" or "FullscreenWindow" in cfg["context"]:
         if s1["main"] != s0["main"]:
             fails.append(("C12:main_screen_content_changed", ""))
+    if crash and crash[0] == "async_caught":
+        between_request_flags = []  # an interrupted request may leave the stream as it was in the middle of the read; exit must repair it
     if any(f != want for f, want in between_request_flags):
         fails.append(("C12:stream_nonblocking_between_requests", "(O_NONBLOCK after the operation, what the program had set) per operation: %r" % (between_request_flags,)))
     for fd in s1["fds"] - s0["fds"]:
@@ -637,6 +646,9 @@ def shard(args):
                 for how in (("kbd", "signal") if cfg["prev_handler"] in ("default", "custom") else ("kbd",)):
                     _, fails, outcome = execute(env, cfg, factory, kind, body, ("async", k, how), cdir)
                     record(body, ("async", k, how), fails, outcome)
+                    if kind == "input" and how == "kbd":
+                        _, fails, outcome = execute(env, cfg, factory, kind, body, ("async_caught", k, how), cdir)
+                        record(body, ("async_caught", k, how), fails, outcome)
             acc.add("async_points", n or 0)
         if len(body) == 1 and cfg_idx in (0, 9, 12):
             faults = [("write", k) for k in range(0, 12)] if kind != "input" and kind != "helper" else []
